@@ -852,6 +852,8 @@ func init() {
 	simple("extension-field", true, func(l *c04Loc) bool { return !l.isRef && l.kind != "SecurityRequirement" }, set("x-extra", jobj("a", 1.0)))
 	simple("ref-sibling-field", false, func(l *c04Loc) bool { return l.isRef }, set("description", "sibling"))
 	simple("ref-sibling-extension", true, func(l *c04Loc) bool { return l.isRef }, set("x-sibling", true))
+	// the shortest name that begins with x-
+	simple("extension-field-named-x-dash", true, func(l *c04Loc) bool { return !l.isRef && l.kind != "SecurityRequirement" }, set("x-", "shortest"))
 	// root, info
 	simple("doc-no-openapi", false, ofKind("Doc"), del("openapi"))
 	simple("doc-no-info", false, ofKind("Doc"), del("info"))
@@ -1458,6 +1460,12 @@ func init() {
 			c04DateExamples(meta)
 		}
 		meta.Histogram["example / default visits on which the two error modes disagree"] = c04ModeSplit
+		if replay == "" {
+			if sig, detail := c04OptionSequences(); sig != "" {
+				meta.GoViolation = append(meta.GoViolation, map[string]any{"signature": sig, "cases": []any{map[string]string{"sequence": detail}}, "go_observation": detail, "judgement": sig + ": " + detail})
+			}
+			meta.Histogram["option call sequences"]++
+		}
 		if c04ModeSplit > 0 {
 			meta.GoViolation = append(meta.GoViolation, map[string]any{"signature": "example-verdict-depends-on-error-mode", "cases": []any{map[string]int{"visits": c04ModeSplit}},
 				"go_observation": fmt.Sprintf("%d (schema, example or default) pairs are accepted in one error mode and rejected in the other", c04ModeSplit),
@@ -1467,4 +1475,42 @@ func init() {
 		fmt.Fprintf(os.Stderr, "C04: %d cases (%d loaded)\n", len(cases), len(trees))
 		_ = sort.Strings
 	}
+}
+
+// the options a context carries belong to the caller: a Validate call with options of its own leaves them as
+// they are, and the verdict of a later call with that context is the one a fresh context with the same options gives
+func c04OptionSequences() (sig, detail string) {
+	bad := `{"openapi":"3.0.3","info":{"title":"t","version":"1"},"paths":{"/a":{"get":{"responses":{"200":{"description":"ok"}}}}},` +
+		`"components":{"schemas":{"D":{"type":"string","maxLength":2,"default":"toolong"},"E":{"type":"string","maxLength":2,"example":"toolong"}}}}`
+	good := `{"openapi":"3.0.3","info":{"title":"t","version":"1"},"paths":{},"components":{"schemas":{"S":{"type":"string"}}}}`
+	load := func(t string) *openapi3.T {
+		d, err := openapi3.NewLoader().LoadFromData([]byte(t))
+		if err != nil {
+			return nil
+		}
+		return d
+	}
+	type optset struct {
+		name string
+		opt  func() openapi3.ValidationOption
+	}
+	sets := []optset{{"DisableExamplesValidation", openapi3.DisableExamplesValidation}, {"DisableSchemaDefaultsValidation", openapi3.DisableSchemaDefaultsValidation},
+		{"DisableSchemaFormatValidation", openapi3.DisableSchemaFormatValidation}, {"EnableSchemaFormatValidation", openapi3.EnableSchemaFormatValidation}}
+	for _, carried := range sets {
+		for _, passed := range sets {
+			fresh := openapi3.WithValidationOptions(context.Background(), carried.opt())
+			want := load(bad).Validate(fresh) == nil
+			ctx := openapi3.WithValidationOptions(context.Background(), carried.opt())
+			_ = load(good).Validate(ctx, passed.opt())
+			_ = load(good).Paths.Validate(ctx, passed.opt())
+			d := load(bad)
+			got := d.Validate(ctx) == nil
+			got2 := d.Components.Validate(ctx) == nil
+			if got != want || got2 != want {
+				return "validation-options-of-a-context-changed-by-an-earlier-call", fmt.Sprintf("context with %s; after Validate(ctx, %s) on another document, Validate(ctx) of a document with a bad default and a bad example accepts=%v / components accepts=%v, a fresh context with %s accepts=%v",
+					carried.name, passed.name, got, got2, carried.name, want)
+			}
+		}
+	}
+	return "", ""
 }
